@@ -135,8 +135,8 @@ theorem nested_roundtrip (tag : Nat) (b : Bytes) (h1 : 1 ≤ tag) (ht : tag ≤ 
   have h' : d.At pre (encTag tag wtLen ++ ((encVarint b.length ++ b) ++ post)) := by
     have := h; simp only [List.append_assoc] at this ⊢; exact this
   have ht1 := Dec.tag_at h' h1 ht (by decide)
-  have hAt := h'.advance
-  have hAt' : Dec.At { d with off := d.off + (encTag tag wtLen).length } (pre ++ encTag tag wtLen) (encVarint b.length ++ b ++ post) := hAt
+  have hAt := h'.afterTag
+  have hAt' : Dec.At (d.afterTag (encTag tag wtLen).length) (pre ++ encTag tag wtLen) (encVarint b.length ++ b ++ post) := hAt
   have hn := decodeNested_exact _ _ b post hl hAt'
   refine ⟨_, _, ht1, hn, ?_⟩
   simp [h.off]; omega
